@@ -41,6 +41,22 @@ def consts_check(ctx):
     cmp("ts_context_account_sizes", [[order.get(n), v] for n, v in t["ts_context_sizes"]],
         [[d[0], c["meta_size"] + d[2]] for d in c["declared"]])
     cmp("ts_meta_size", t["ts_consts"].get("CONTEXT_STATE_META_SIZE"), c["meta_size"])
+    # what the SDK actually encodes (every builder x every variant) vs the TS declarations
+    ts_addr = bytes(t["ts_address_bytes"]).hex()
+    ts_disc = {n: v for n, v in t["ts_instructions"]}
+    for name, prog, d0 in c.get("encoded", []):
+        variant = name.split(":")[1]
+        cmp(f"encoded:{name}", [ts_addr, ts_disc.get(variant)], [prog, d0])
+    ts_pt = {n: v for n, v in t["ts_proof_types"]}
+    ts_sz = {order.get(n): v for n, v in t["ts_context_sizes"]}
+    names = {v: n for n, v in t["rust_proof_types"]}
+    for i, total, tb in c.get("encoded_states", []):
+        if i in ts_sz:
+            cmp(f"encoded_state:{names.get(i)}", [ts_sz[i], ts_pt.get(names.get(i))], [total, tb])
+        else:
+            cmp(f"encoded_state:{names.get(i)}", ts_pt.get(names.get(i)), tb)
+    if not c.get("encoded") or not c.get("encoded_states"):
+        out.append({"kind": "const", "line": "zkh const encoded", "impl": None, "model": None, "note": "encoded section missing"})
     return out, rows
 
 
